@@ -468,3 +468,282 @@ def push_cases(rng, n):
             ty = {"k": "struct", "name": "PushData"}
         mk(ty, structs, rng.choice(pats), rng.choice(stage_sets), rng.random() < 0.5)
     return cases
+
+
+# ------------------------------------------------------------------ struct roles (C09 C01 C05 C06 C07)
+VERTEXABLE = [{"k": "scalar", "s": sc} for sc in SCALARS] + [{"k": "vec", "n": n, "s": sc} for n in (2, 3, 4) for sc in SCALARS]
+FLOATVECS = [{"k": "scalar", "s": "f32"}] + [{"k": "vec", "n": n, "s": "f32"} for n in (2, 3, 4)]
+
+
+def io_struct(rng, name, types, n_members, builtins=(), sparse=True, prefix="a"):
+    locs = rng.sample(range(0, 12 if sparse else n_members), n_members)
+    if rng.random() < 0.5:
+        locs.sort()
+    mem = [{"name": "%s%d" % (prefix, j), "ty": rng.choice(types), "io": {"k": "loc", "n": locs[j]}} for j in range(n_members)]
+    for b in builtins:
+        mem.insert(rng.randint(0, len(mem)), {"name": "bi_" + b, "ty": {"k": "vec", "n": 4, "s": "f32"} if b == "position" else
+                                              {"k": "scalar", "s": "bool"} if b == "front_facing" else
+                                              {"k": "scalar", "s": "f32"} if b == "frag_depth" else {"k": "scalar", "s": "u32"}, "io": {"k": "builtin", "b": b}})
+    return {"name": name, "members": mem}
+
+
+def host_members(rng, space, inner=None, big_arrays=False):
+    mem = []
+    for j in range(rng.randint(1, 5)):
+        r = rng.random()
+        if space == "uniform":
+            if r < 0.55:
+                t = rand_leaf(rng)
+            elif r < 0.8:
+                t = {"k": "array", "n": rng.choice([1, 2, 3, 4, 33, 40] if big_arrays else [1, 2, 3, 4]), "e": rng.choice([{"k": "vec", "n": 4, "s": rng.choice(SCALARS)}, {"k": "mat", "c": 4, "r": 4, "s": "f32"}])}
+            elif inner:
+                t = {"k": "struct", "name": inner}
+            else:
+                t = rand_leaf(rng)
+        else:
+            if r < 0.5:
+                t = rand_leaf(rng)
+            elif r < 0.75:
+                t = {"k": "array", "n": rng.choice([1, 2, 3, 5, 33, 64] if big_arrays else [1, 2, 3, 5]), "e": rng.choice([rand_leaf(rng), {"k": "array", "n": rng.choice([2, 3]), "e": rand_leaf(rng, allow_mat=False)}])}
+            elif r < 0.85 and space == "storage_rw":
+                t = {"k": "atomic", "s": rng.choice(["u32", "i32"])}
+            elif inner:
+                t = rng.choice([{"k": "struct", "name": inner}, {"k": "array", "n": 2, "e": {"k": "struct", "name": inner}}])
+            else:
+                t = rand_leaf(rng)
+        mem.append({"name": "f%d" % j, "ty": t})
+    return mem
+
+
+def role_shader(rng, big_arrays=True):
+    S = {"structs": [], "globals": [], "consts": [], "overrides": [], "functions": [], "entries": []}
+    g = [0]
+
+    def bind(name, space, ty):
+        S["globals"].append({"name": name, "space": space, "group": str(g[0] // 3), "binding": str(g[0] % 3), "ty": ty})
+        g[0] += 1
+    # vertex side
+    vparams = []
+    if rng.random() < 0.9:
+        bi = [b for b in ("vertex_index", "instance_index") if rng.random() < 0.25]
+        S["structs"].append(io_struct(rng, "VertexInput", VERTEXABLE, rng.randint(1, 4), bi, prefix="v"))
+        vparams.append({"k": "struct", "name": "vertex_in", "ty": "VertexInput"})
+        if rng.random() < 0.4:
+            st = io_struct(rng, "InstanceInput", VERTEXABLE, rng.randint(1, 3), prefix="i")
+            for m in st["members"]:
+                m["io"]["n"] += 12
+            S["structs"].append(st)
+            vparams.insert(rng.randint(0, 1), {"k": "struct", "name": "instance_in", "ty": "InstanceInput"})
+    if rng.random() < 0.3:
+        vparams.append({"k": "builtin", "name": "vidx", "b": "vertex_index"})
+    vres = {"k": "builtin", "b": "position"}
+    fparams = []
+    if rng.random() < 0.6:
+        S["structs"].append(io_struct(rng, "VertexOutput", FLOATVECS, rng.randint(1, 3), ["position"], sparse=False, prefix="o"))
+        vres = {"k": "struct", "ty": "VertexOutput"}
+        if rng.random() < 0.7:
+            fparams.append({"k": "struct", "name": "frag_in", "ty": "VertexOutput"})
+    if not fparams and rng.random() < 0.6:
+        S["structs"].append(io_struct(rng, "FragmentInput", FLOATVECS, rng.randint(1, 3), [b for b in ("position", "front_facing") if rng.random() < 0.3], sparse=False, prefix="q"))
+        fparams.append({"k": "struct", "name": "frag_in", "ty": "FragmentInput"})
+    fres = None
+    r = rng.random()
+    if r < 0.4:
+        S["structs"].append(io_struct(rng, "FragmentOutput", [{"k": "vec", "n": 4, "s": "f32"}], rng.randint(1, 3), [b for b in ("frag_depth", "sample_mask") if rng.random() < 0.3], sparse=rng.random() < 0.3, prefix="c"))
+        fres = {"k": "struct", "ty": "FragmentOutput"}
+    elif r < 0.8:
+        fres = {"k": "loc", "n": rng.choice([0, 0, 0, 1, 3]), "ty": {"k": "vec", "n": 4, "s": "f32"}}
+    # host side
+    has_rt = False
+    if rng.random() < 0.5:
+        S["structs"].append({"name": "Inner", "members": [{"name": "v", "ty": {"k": "vec", "n": 4, "s": "f32"}}] + host_members(rng, "uniform")[:2]})
+    inner = "Inner" if any(x["name"] == "Inner" for x in S["structs"]) else None
+    if rng.random() < 0.7:
+        S["structs"].append({"name": "Uniforms", "members": host_members(rng, "uniform", inner, big_arrays)})
+        bind("uniforms", "uniform", {"k": "struct", "name": "Uniforms"})
+    if rng.random() < 0.6:
+        S["structs"].append({"name": "Store", "members": host_members(rng, "storage_rw", inner, big_arrays)})
+        bind("store", "storage_rw", rng.choice([{"k": "struct", "name": "Store"}, {"k": "array", "n": 3, "e": {"k": "struct", "name": "Store"}}]))
+    if rng.random() < 0.3:
+        el = rng.choice([{"k": "scalar", "s": "u32"}, {"k": "vec", "n": 4, "s": "f32"}, {"k": "vec", "n": 3, "s": "f32"}, {"k": "mat", "c": 3, "r": 3, "s": "f32"}] + ([{"k": "struct", "name": inner}] if inner else []))
+        S["structs"].append({"name": "Growable", "members": [{"name": "count", "ty": {"k": "scalar", "s": "u32"}}, {"name": "items", "ty": {"k": "rtarray", "e": el}}]})
+        bind("growable", rng.choice(["storage_r", "storage_rw"]), {"k": "struct", "name": "Growable"})
+        has_rt = True
+    if rng.random() < 0.25:
+        S["structs"].append({"name": "PushData", "members": host_members(rng, "storage_r")[:3]})
+        S["globals"].append({"name": "pc", "space": "push", "ty": {"k": "struct", "name": "PushData"}})
+    if rng.random() < 0.2:
+        S["structs"].append({"name": "Scratch", "members": [{"name": "s%d" % j, "ty": rand_leaf(rng)} for j in range(rng.randint(1, 3))]})
+        S["globals"].append({"name": "scratch", "space": rng.choice(["workgroup", "private"]), "ty": {"k": "struct", "name": "Scratch"}})
+    if rng.random() < 0.25 and any(x["name"] == "VertexInput" for x in S["structs"]) and not any("io" in m and m["io"]["k"] == "builtin" for x in S["structs"] if x["name"] == "VertexInput" for m in x["members"]):
+        bind("vertex_pull", "storage_r", {"k": "array", "n": 4, "e": {"k": "struct", "name": "VertexInput"}})
+    if rng.random() < 0.3:
+        bind("tex", "handle", {"k": "tex", "class": "sampled", "dim": "2d", "kind": "f32"})
+        bind("samp", "handle", {"k": "sampler", "cmp": False})
+    rng.shuffle(S["structs"]) if False else None
+    # dependencies must be declared before use is not required in WGSL; keep declaration order
+    def uses(stage):
+        body = []
+        for gl in S["globals"]:
+            if gl["space"] == "workgroup" and stage != "compute":
+                continue
+            if rng.random() < 0.5:
+                hs = hows_for(gl, S)
+                hs = [h for h in hs if not (stage == "vertex" and h[0] in ("store", "atomic", "tex_store"))] or hs[:1]
+                if hs:
+                    how, comp = rng.choice(hs)
+                    n = {"k": "access", "g": gl["name"], "how": how}
+                    if comp:
+                        n["with"] = comp
+                    body.append(n)
+        return body
+    S["entries"].append({"name": "vs_main", "stage": "vertex", "params": vparams, "result": vres, "body": uses("vertex"), "wg": []})
+    if rng.random() < 0.3 and vparams:
+        S["entries"].append({"name": "vs_shadow", "stage": "vertex", "params": list(reversed(vparams)), "result": {"k": "builtin", "b": "position"}, "body": uses("vertex"), "wg": []})
+    e = {"name": "fs_main", "stage": "fragment", "params": fparams, "body": uses("fragment"), "wg": []}
+    if fres:
+        e["result"] = fres
+    S["entries"].append(e)
+    if rng.random() < 0.5:
+        S["entries"].append({"name": "cs_main", "stage": "compute", "params": [], "body": uses("compute"), "wg": [str(rng.choice([1, 8, 64]))] + ([str(rng.choice([1, 4]))] if rng.random() < 0.5 else [])})
+    return S, has_rt
+
+
+def all_opts(rustfmt=False, validate="none", mvs=("rust", "glam", "nalgebra")):
+    out = []
+    for mv in mvs:
+        for bits in range(16):
+            out.append(opts(bmv=bool(bits & 1), bmh=bool(bits & 2), enc=bool(bits & 4), serde=bool(bits & 8), mv=mv, rustfmt=rustfmt, validate=validate))
+    return out
+
+
+def option_matrix_cases(rng, n_shaders, prefix, family, extra_variants=True):
+    cases = []
+    for i in range(n_shaders):
+        S, has_rt = role_shader(rng)
+        ov = all_opts()
+        if extra_variants:
+            ov.append(opts(validate="all"))
+            ov.append(opts(bmv=True, bmh=True, enc=True, serde=True, mv="glam", validate="all"))
+            ov.append(opts(rustfmt=True))
+            ov.append(opts(bmv=True, enc=True, mv="glam", rustfmt=True))
+        for j, o in enumerate(ov):
+            cases.append({"id": "%s-%04d-%02d" % (prefix, i, j), "family": family, "S": S, "opts": o})
+    return cases
+
+
+# ------------------------------------------------------------------ C17 corruption families
+INVALID_BUT_PARSABLE = [
+    # uniform layout violation (array stride 4 in the uniform address space)
+    ("layout-uniform-array", "struct U { a: array<f32, 4>, }\n@group(0) @binding(0) var<uniform> u: U;\n@fragment fn fs_main() { _ = u.a[0]; }\n"),
+    # struct member of struct type at an offset that is not a multiple of 16 in uniform space
+    ("layout-uniform-struct", "struct I { x: f32, }\nstruct U { a: f32, b: I, }\n@group(0) @binding(0) var<uniform> u: U;\n@fragment fn fs_main() { _ = u.a; }\n"),
+    ("vertex-no-position", "@vertex fn vs_main() -> @location(0) vec4<f32> { return vec4<f32>(); }\n"),
+    ("binding-collision", "@group(0) @binding(0) var<uniform> a: vec4<f32>;\n@group(0) @binding(0) var<uniform> b: vec4<f32>;\n@fragment fn fs_main() { _ = a; _ = b; }\n"),
+    ("workgroup-in-fragment", "var<workgroup> w: array<u32, 4>;\n@fragment fn fs_main() { _ = w[0]; }\n"),
+    ("missing-binding-attr", "var<uniform> u: vec4<f32>;\n@fragment fn fs_main() { _ = u; }\n"),
+    ("f64-type", "struct S { d: f64, }\n@group(0) @binding(0) var<storage, read> s: S;\n@compute @workgroup_size(1) fn cs() { _ = s.d; }\n"),
+    ("push-constant", "var<push_constant> pc: vec4<f32>;\n@fragment fn fs_main() { _ = pc; }\n"),
+    ("fragment-bad-output", "@fragment fn fs_main() -> @builtin(position) vec4<f32> { return vec4<f32>(); }\n"),
+    ("compute-zero-wg", "@compute @workgroup_size(0) fn cs() { }\n"),
+    ("storage-texture-in-uniform", "@group(0) @binding(0) var<uniform> t: texture_2d<f32>;\n@fragment fn fs_main() { }\n"),
+    ("write-to-readonly", "@group(0) @binding(0) var<storage, read> s: array<u32, 4>;\n@compute @workgroup_size(1) fn cs() { s[0] = 1u; }\n"),
+    ("bool-in-uniform", "struct U { b: bool, }\n@group(0) @binding(0) var<uniform> u: U;\n@fragment fn fs_main() { }\n"),
+    ("runtime-array-in-uniform", "@group(0) @binding(0) var<uniform> u: array<vec4<f32>>;\n@fragment fn fs_main() { }\n"),
+    ("atomic-in-uniform", "@group(0) @binding(0) var<uniform> u: atomic<u32>;\n@fragment fn fs_main() { }\n"),
+    ("vertex-input-no-location", "struct V { p: vec4<f32>, }\n@vertex fn vs_main(v: V) -> @builtin(position) vec4<f32> { return v.p; }\n"),
+    ("duplicate-location", "struct V { @location(0) a: f32, @location(0) b: f32, }\n@vertex fn vs_main(v: V) -> @builtin(position) vec4<f32> { return vec4<f32>(v.a); }\n"),
+    ("int-location-not-flat", "@fragment fn fs_main(@location(0) i: i32) { }\n"),
+]
+INJECT = ["\u00e9", "\u200b", "\ufeff", "\x00", '"', "\\", "{", "}", "\U0001F600", "\r", "\u2028", ";", "@", "/*", "*/", "//", "<", ">", "\t", "\x7f", "\u0301"]
+SWAPS = [("f32", "i32"), ("u32", "f32"), ("vec4", "vec3"), ("var<uniform>", "var<storage>"), ("read_write", "read"), ("@vertex", "@fragment"),
+         ("@fragment", "@compute @workgroup_size(1)"), ("@location(0)", ""), ("@builtin(position)", "@builtin(vertex_index)"), ("@group(0)", "@group(1)"),
+         ("@binding(0)", "@binding(1)"), ("texture_2d", "texture_3d"), ("return", ""), ("let ", "var "), ("fn ", "fn fn"), (";", ""), ("->", "")]
+
+
+def corruptions(rng, src, n):
+    out = []
+    L = len(src)
+    for _ in range(n):
+        k = rng.random()
+        if L == 0:
+            out.append(rng.choice(INJECT))
+            continue
+        if k < 0.2:
+            out.append(src[:rng.randrange(L)])
+        elif k < 0.32:
+            i = rng.randrange(L)
+            out.append(src[:i] + src[i + 1:])
+        elif k < 0.42:
+            i = rng.randrange(max(1, L - 1))
+            out.append(src[:i] + src[i + 1:i + 2] + src[i:i + 1] + src[i + 2:])
+        elif k < 0.6:
+            i = rng.randrange(L + 1) if rng.random() < 0.85 else 0
+            out.append(src[:i] + rng.choice(INJECT) + src[i:])
+        elif k < 0.7:
+            i = rng.randrange(L); j = min(L, i + rng.randint(1, 40))
+            out.append(src[:j] + src[i:j] + src[j:])
+        elif k < 0.95:
+            a, b = rng.choice(SWAPS)
+            idxs = [i for i in range(L) if src.startswith(a, i)]
+            if idxs:
+                i = rng.choice(idxs)
+                out.append(src[:i] + b + src[i + len(a):])
+            else:
+                out.append(src[:rng.randrange(L)])
+        else:
+            i = rng.randrange(L); j = min(L, i + rng.randint(1, 60))
+            out.append(src[:i] + src[j:])
+    return out
+
+
+def c17_cases(rng, seeds, n_per_seed, validate_sets=("none", "all")):
+    """seeds: list of (name, valid WGSL text)"""
+    cases = []
+    k = 0
+    for name, src in seeds:
+        variants = [src] + corruptions(rng, src, n_per_seed)
+        # every injectable character at the very start and the very end of the source
+        if k < 40000:
+            variants += [c + src for c in INJECT] + [src + c for c in INJECT]
+        for v in variants:
+            vs = list(validate_sets)
+            if rng.random() < 0.15:
+                vs.append(rng.choice(["nof64", "empty"]))
+            for val in vs:
+                cases.append({"id": "c17-%06d" % k, "family": "corrupt-" + name.split("-")[0], "wgsl": v, "opts": opts(validate=val)})
+                k += 1
+    for name, src in INVALID_BUT_PARSABLE:
+        for val in ("none", "all", "nof64", "empty"):
+            cases.append({"id": "c17-%06d" % k, "family": "semantic-" + name, "wgsl": src, "opts": opts(validate=val)})
+            k += 1
+    return cases
+
+
+# ------------------------------------------------------------------ C18 stress shaders: many candidates of every "pick one" kind
+def stress_shaders(rng):
+    out = []
+    sizes = [{"k": "scalar", "s": "f32"}, {"k": "vec", "n": 2, "s": "f32"}, {"k": "vec", "n": 3, "s": "u32"}, {"k": "vec", "n": 4, "s": "f32"},
+             {"k": "mat", "c": 4, "r": 4, "s": "f32"}, {"k": "array", "n": 8, "e": {"k": "vec", "n": 4, "s": "f32"}}]
+    for used in (None, 1, 3):
+        S = {"structs": [], "globals": [], "consts": [], "overrides": [], "functions": [], "entries": []}
+        for i, t in enumerate(sizes):
+            S["globals"].append({"name": "pc%d" % i, "space": "push", "ty": t})
+        body = [{"k": "access", "g": "pc%d" % used, "how": "load"}] if used is not None else []
+        S["entries"].append({"name": "fs_main", "stage": "fragment", "params": [], "body": body, "wg": []})
+        S["entries"].append({"name": "cs_main", "stage": "compute", "params": [], "body": [], "wg": ["1"]})
+        out.append(S)
+    # many structs / globals / overrides / constants / entries
+    S = {"structs": [], "globals": [], "consts": [], "overrides": [], "functions": [], "entries": []}
+    for i in range(14):
+        S["structs"].append({"name": "Block%d" % i, "members": [{"name": "m%d" % j, "ty": rand_leaf(rng)} for j in range(1 + i % 4)]})
+        S["globals"].append({"name": "block%d" % i, "space": "storage_r", "group": str(i % 4), "binding": str(i // 4), "ty": {"k": "struct", "name": "Block%d" % i}})
+    for i in range(10):
+        S["overrides"].append({"name": "ov%d" % i, "ty": ["f32", "i32", "u32", "bool"][i % 4], **({"default": ["1.0", "2", "3u", "true"][i % 4]} if i % 2 else {}), **({"id": 100 - i} if i % 3 == 0 else {})})
+        S["consts"].append({"name": "K%d" % i, "expr": ["1.5", "2", "3u", "true", "-4i"][i % 5]})
+    for i in range(6):
+        st = ["vertex", "fragment", "compute"][i % 3]
+        S["entries"].append({"name": "entry%d" % i, "stage": st, "params": [], "wg": ["1"] if st == "compute" else [],
+                             "body": [{"k": "access", "g": "block%d" % ((i * 5 + q) % 14), "how": "load"} for q in range(3)]})
+    out.append(S)
+    return out
